@@ -87,6 +87,8 @@ type condFact struct {
 	succ  int
 	expr  string
 	iv    Iv
+	neq   bool  // the edge establishes expr != ne
+	ne    int64
 }
 
 func New(f *symx.Fn) *Q {
@@ -134,10 +136,13 @@ func (q *Q) collect() {
 				iv = Iv{Hi: c, HiOK: true}
 			case token.EQL:
 				iv = Iv{Lo: c, Hi: c, LoOK: true, HiOK: true}
+			case token.NEQ:
+				q.conds = append(q.conds, condFact{block: iff.Block(), succ: succ, expr: s, neq: true, ne: c})
+				return
 			default:
 				return
 			}
-			q.conds = append(q.conds, condFact{iff.Block(), succ, s, iv})
+			q.conds = append(q.conds, condFact{block: iff.Block(), succ: succ, expr: s, iv: iv})
 		}
 		add(0, op)
 		add(1, ssau.Negate(op))
@@ -184,6 +189,42 @@ func (q *Q) guardBound(s string, at *ssa.BasicBlock) Iv {
 		if !ssau.ReachableAvoidingEdges(q.fn, at, cut) {
 			if !out.HiOK || H < out.Hi {
 				out.HiOK, out.Hi = true, H
+			}
+		}
+	}
+	// disequalities tighten a closed end: x >= c and x != c give x >= c+1.
+	// An edge establishing a tighter bound (x > c) also establishes x != c.
+	for changed := true; changed; {
+		changed = false
+		for _, end := range []int{0, 1} {
+			var c0 int64
+			if end == 0 {
+				if !out.LoOK {
+					continue
+				}
+				c0 = out.Lo
+			} else {
+				if !out.HiOK {
+					continue
+				}
+				c0 = out.Hi
+			}
+			cut := map[[2]int]bool{}
+			for _, c := range q.conds {
+				if c.expr != s {
+					continue
+				}
+				if (c.neq && c.ne == c0) || (c.iv.LoOK && c.iv.Lo > c0) || (c.iv.HiOK && c.iv.Hi < c0) {
+					cut[[2]int{c.block.Index, c.succ}] = true
+				}
+			}
+			if len(cut) > 0 && !ssau.ReachableAvoidingEdges(q.fn, at, cut) {
+				if end == 0 {
+					out.Lo++
+				} else {
+					out.Hi--
+				}
+				changed = true
 			}
 		}
 	}
